@@ -99,7 +99,28 @@ def run(ctx):
     if fn is None:
         print("unknown property %s" % prop)
         return 2
-    fn(ctx, rt)
+    try:
+        fn(ctx, rt)
+    except Exception as e:  # noqa
+        # an exception that comes out of the library itself while the property is being evaluated is a symptom
+        # (the property's predicates only call documented API on inputs of the property's domain); anything else
+        # is an infrastructure error of the harness
+        import traceback as _tb
+        frames = _tb.extract_tb(e.__traceback__)
+        lib = [f for f in frames if os.path.realpath(f.filename).startswith(os.path.realpath(core.REPO) + os.sep)]
+        if not lib:
+            raise
+        where = "%s:%d in %s" % (os.path.relpath(lib[-1].filename, core.REPO), lib[-1].lineno, lib[-1].name)
+        caller = [f for f in frames if f.filename.startswith(HERE)]
+        ctx.violations.append({"sig": "%s:library-raised:%s" % (prop, type(e).__name__),
+                               "what": "the library raised %s (%s) at %s while the property was evaluated on an input of its domain"
+                                       % (type(e).__name__, str(e)[:200], where),
+                               "harness_line": "%s:%d" % (os.path.basename(caller[-1].filename), caller[-1].lineno) if caller else None,
+                               "traceback": _tb.format_exc()[-1500:]})
+        try:
+            props.restore_default()
+        except Exception:
+            pass
     # known findings for this property
     kf = core.load_known_findings()
     uncovered = props.apply_known_findings(ctx, rt, kf)
